@@ -161,7 +161,7 @@ def coverage(run, events, rejected, m, gen_results, val_results, cfg):
                 "Round-trip inputs: packets built and XXTEA-encrypted by TLC from Gen_Flarm's field tuples "
                 "(type = i mod 16, flags cycling, both key tables, boundary and random addresses/times, "
                 "altitude sweep, references over the globe, offsets uniform in +-3.3/+-6.7 deg or on the "
-                "window edges). Totality inputs: seeded byte strings of length 0..40 (biased to a valid "
+                "window edges, one in eleven a steady turn whose extrapolated track is exactly north). Totality inputs: seeded byte strings of length 0..40 (biased to a valid "
                 "magic byte), extreme times, extreme and non-finite references. Non-trivial = the decoder "
                 "returned a record (header, decryption and all numeric fields were exercised); distinct = "
                 "distinct (bytes, time, reference).",
@@ -234,6 +234,7 @@ def check(run):
     core.log(f"V: {len(events)} events, {len(rejected)} rejected, {max(r.wall for r in val_results):.1f}s")
     judge(run, events, rejected)
     coverage(run, events, rejected, m, gen_results, val_results, cfg)
+    run.cov["round_trip"]["families"] = dict(Counter(v.get("fam", "plain") for v in vectors))
 
 
 def replay(run, path):
